@@ -197,6 +197,7 @@ def layoutOffset (t : MemTy) (rt : Rt) : Nat :=
   | .tsl l => l.offset.getD rt.offset
   | .strided _ o => o.getD rt.offset
   | .none => 0
+  | .other => 0
 
 theorem tslOf_offset {t other : MemTy} {shp : List (Option Nat)} {T : Tsl} (h : tslOf t other shp = .ok T) (rt : Rt) :
     T.offset.getD rt.offset = layoutOffset t rt := by
@@ -204,7 +205,8 @@ theorem tslOf_offset {t other : MemTy} {shp : List (Option Nat)} {T : Tsl} (h : 
   unfold layoutOffset
   split at h
   next l hl => injection h with h; subst h; simp [hl]
-  next hnt =>
+  · simp at h
+  next hnt hno =>
     split at h
     · simp at h
     next strides hs =>
